@@ -468,6 +468,9 @@ def check_tinylfu(rep, fl):
     check_contains_or_add(rep, fl)
     # "on a fresh or cleared estimator every key estimates zero": nothing the estimator accumulates survives clear / reset
     check_reset_complete(rep, fl, "R13.3", only=(BLOOM, CMS, TLFU))
+    # "clear() zeroes everything": the policy's clear reaches TinyLFU::clear on every path
+    import props_life
+    props_life.check_policy_clear(rep, fl, rule="R13.3")
     # try_reset: w += 1; reset iff w >= samples
     tr = facts.body(TLFU + "::try_reset")
     at, entry = dataflow(tr)
@@ -651,6 +654,18 @@ def check_C14(rep, fl):
     # the doorkeeper's one entry point: present -> false, absent -> add and true
     check_contains_or_add(rep, fl, rule="R14.2")
     check_reset_complete(rep, fl, "R14.4", only=(BLOOM,))
+    # "after adding up to n distinct hashes": the doorkeeper is built for num_counters entries and is emptied after
+    # that many recordings - every hash it receives passes the per-key window count (increment -> try_reset), also
+    # for a batch
+    from framework import Report
+    tmp = Report(rep.prop, rep.tier)
+    try:
+        check_tinylfu(tmp, fl)
+    finally:
+        for i in tmp.instances:
+            if i.site in ("increment", "try_reset", "increments") or i.verdict == "anchor-missing":
+                i.rule = "R14.7"
+                rep.instances.append(i)
     # ---- R14.5 sizing ---------------------------------------------------------------------------
     check_bloom_sizing(rep, fl, so if so is not None else None)
     # ---- R14.6 recorded only -------------------------------------------------------------------
